@@ -26,7 +26,7 @@ from mc.core.explore import Shard, violation
 
 PROPERTY = "C20"
 RULE = (
-    "full product of 32 option sets x 25 queries x 14 documents run in-process through cli.main(); "
+    "full product of 32 option sets x 25 queries x 17 documents (incl. UTF-8 with BOM, UTF-16, UTF-32 files) run in-process through cli.main(); "
     "expected outcome computed from find() (success) or from the input class (failure); 48 cases "
     "replayed through real subprocesses and compared byte for byte with the in-process "
     "observation; distinct by construction; non-trivial = cases whose expected outcome is a failure "
@@ -68,6 +68,9 @@ DOCS = [
     ("badjson", b'{"a": 1'), ("badjson", b'[1, 2,, 3]'), ("badjson", b'{"a": 1} x'),
     ("badjson", b""),
     ("badbytes", b'{"a": "\xff\xfe"}'),
+    ("encoded", b'\xef\xbb\xbf{"a": [1, {"a": 2}], "b": "xyz"}'),
+    ("encoded", '{"a": "\u00e9", "b": "xy"}'.encode("utf-16")),
+    ("encoded", '[{"a": 1, "b": "xq"}]'.encode("utf-32-le")),
 ]
 
 
@@ -95,9 +98,12 @@ def expected(qclass, query, dclass, docbytes, opts):
     c = impl.run(impl.jp.compile, query)
     if c[0] != "ok":
         return ("fail",)
-    if dclass in ("badjson", "badbytes"):
+    # a document file is read as bytes (json detects UTF-8 with BOM / UTF-16 / UTF-32 as RFC 8259
+    # section 8.1 describes); standard input is a UTF-8 text stream
+    try:
+        doc = json.loads(docbytes) if opts["dfile"] else json.loads(docbytes.decode("utf-8"))
+    except (ValueError, UnicodeDecodeError):
         return ("fail",)
-    doc = json.loads(docbytes.decode("utf-8"))
     r = impl.run(impl.jp.find, query, doc)
     if r[0] != "ok":
         return ("fail",)
@@ -231,6 +237,12 @@ def check_one(qi, di, oi, tmp, via="inprocess"):
 def check_case(case):
     tmp = tempfile.mkdtemp(prefix="c20-")
     try:
+        if "invalid_query" in case:
+            opts = case["options"]
+            argv, stdin_bytes, op = build_argv(tmp, case["invalid_query"], DOCS[0][1], opts)
+            exp = expected("invalid", case["invalid_query"], "ok", DOCS[0][1], opts)
+            bad = judge(exp, run_inprocess(argv, stdin_bytes, op), opts)
+            return violation(bad[0], case, bad[1], bad[2], bad[0]) if bad else None
         exp, obs, opts = check_one(case["q"], case["d"], case["o"], tmp)
         bad = judge(exp, obs, opts)
         if bad:
@@ -253,6 +265,7 @@ def _norm(o):
 
 def shards(tier):
     out = [{"part": "product", "q": qi} for qi in range(len(QUERIES))]
+    out += [{"part": "invalid", "k": k} for k in range(4)]
     out += [{"part": "conformance", "k": k} for k in range(8)]
     return out
 
@@ -266,7 +279,31 @@ def run_shard(desc):
     tmp = tempfile.mkdtemp(prefix="c20-")
     try:
         nopt = len(option_sets())
-        if desc["part"] == "product":
+        if desc["part"] == "invalid":
+            # the whole invalid corpus of C15 (every error class, incl. queries that once crashed the
+            # parser): always a one-line diagnostic, never a traceback, nothing written
+            from mc.checks import c15
+            inv = [q for q in c15.INVALID if "\x00" not in q]
+            for qn, q in enumerate(inv):
+                if qn % 4 != desc["k"]:
+                    continue
+                for oi in (0, 5, 10, 27):
+                    opts = option_sets()[oi]
+                    if opts["debug"]:
+                        opts = dict(opts, debug=False)
+                    argv, stdin_bytes, op = build_argv(tmp, q, DOCS[0][1], opts)
+                    exp = expected("invalid", q, "ok", DOCS[0][1], opts)
+                    obs = run_inprocess(argv, stdin_bytes, op)
+                    sh.states += 1
+                    sh.transitions += 1
+                    sh.traces += 1
+                    sh.evaluations += 1
+                    sh.nontrivial += 1
+                    bad = judge(exp, obs, opts)
+                    if bad:
+                        sh.violation(violation(bad[0], {"invalid_query": q, "options": opts}, bad[1], bad[2], bad[0]))
+            sh.sample({"invalid_query": inv[desc["k"]]}, limit=1)
+        elif desc["part"] == "product":
             qi = desc["q"]
             for di in range(len(DOCS)):
                 for oi in range(nopt):
